@@ -61,6 +61,9 @@ type transSpec struct {
 	recv   string // receiver type name ("" for plain functions)
 	anchor string // when non-empty: translate only from the first top-level statement whose source starts with this text
 	mutRecv bool  // the receiver is modified: the function returns (receiver, result)
+	until   string // when non-empty: translate only up to (excluding) the first top-level statement whose source starts with this text …
+	yield   string // … and return this local (with a nil error) there; the first result of the earlier returns becomes its zero value
+	yieldTy string // Lean type of that local
 }
 
 type trans struct {
@@ -89,6 +92,7 @@ type trans struct {
 }
 
 type funcCtx struct {
+	yieldZero string // prefix translation: what stands for the first result in the `return`s that are kept
 	name    string
 	recv    string
 	mutRecv bool
@@ -696,7 +700,11 @@ func (t *trans) retExpr(results []ast.Expr) string {
 		v = t.expr(results[0])
 	default:
 		var s []string
-		for _, r := range results {
+		for i, r := range results {
+			if i == 0 && t.cur.yieldZero != "" {
+				s = append(s, t.cur.yieldZero)
+				continue
+			}
 			s = append(s, t.expr(r))
 		}
 		v = "(" + strings.Join(s, ", ") + ")"
@@ -1059,7 +1067,25 @@ func (t *trans) function(name string) {
 		}
 		body = body[start:]
 	}
-	res := t.resultType(fd.Type.Results)
+	res := ""
+	if sp.until != "" {
+		end := -1
+		for i, s := range body {
+			if strings.HasPrefix(t.src(s), sp.until) {
+				end = i
+				break
+			}
+		}
+		if end < 0 {
+			t.failf("%s: statement %q (end of the translated part) not found", name, sp.until)
+			return
+		}
+		body = body[:end]
+		ctx.yieldZero = map[string]string{"String": `""`, "Int": "(0 : Int)", "Bool": "false"}[sp.yieldTy]
+		res = "(" + sp.yieldTy + " × GoError)"
+	} else {
+		res = t.resultType(fd.Type.Results)
+	}
 	if sp.mutRecv {
 		rt := fd.Recv.List[0].Type
 		if st, ok := rt.(*ast.StarExpr); ok {
@@ -1086,7 +1112,9 @@ func (t *trans) function(name string) {
 	}
 	o.b.WriteString(bo.b.String())
 	// a body whose last statement is not a return (void functions) needs a final value
-	if n := len(body); n == 0 || !endsInReturn(body[n-1]) {
+	if sp.until != "" {
+		o.line(1, "return ("+leanIdent(sp.yield)+", none)")
+	} else if n := len(body); n == 0 || !endsInReturn(body[n-1]) {
 		o.line(1, "return "+t.retExpr(nil))
 	}
 	pos := t.p.fset.Position(fd.Pos())
@@ -1221,6 +1249,7 @@ func translate(repo string, p *pkgFiles, outPath string) {
 		{fn: "parseResponse", recv: "ServiceProvider"},
 		{fn: "findOneChild"},
 		{fn: "parseArtifactResponse", recv: "ServiceProvider"},
+		{fn: "getSPEncryptionCert", recv: "IdpAuthnRequest", until: "certStr = regexp.", yield: "certStr", yieldTy: "String"},
 		{fn: "getACSEndpoint", recv: "IdpAuthnRequest", mutRecv: true},
 		{fn: "Validate", recv: "IdpAuthnRequest", mutRecv: true, anchor: "mustHaveDestination :="},
 	}
@@ -1251,6 +1280,34 @@ func translate(repo string, p *pkgFiles, outPath string) {
 		stack[name] = true
 		var lines []string
 		if st, ok := t.structs[name]; ok {
+			// fields promoted from embedded structs are generated as fields of the outer structure
+			direct := map[string]bool{}
+			for _, f := range st.Fields.List {
+				for _, n := range f.Names {
+					direct[n.Name] = true
+				}
+			}
+			var promoted []string
+			for fn := range t.usedF[name] {
+				if !direct[fn] {
+					promoted = append(promoted, fn)
+				}
+			}
+			sort.Strings(promoted)
+			for _, fn := range promoted {
+				ft := t.promotedFieldType(st, fn, 0)
+				if ft == nil {
+					t.failf("structure %s: field %s not found (not even through embedded structs)", name, fn)
+					continue
+				}
+				lt := t.leanType(ft)
+				for dep := range t.usedF {
+					if dep != name && strings.Contains(" "+strings.NewReplacer("(", " ", ")", " ").Replace(lt)+" ", " "+dep+" ") {
+						emitS(dep, stack)
+					}
+				}
+				lines = append(lines, fmt.Sprintf("  %s : %s", fn, lt))
+			}
 			for _, f := range st.Fields.List {
 				for _, n := range f.Names {
 					if !t.usedF[name][n.Name] {
@@ -1295,11 +1352,9 @@ func translate(repo string, p *pkgFiles, outPath string) {
 		before := len(t.usedF)
 		for name := range t.usedF {
 			if st, ok := t.structs[name]; ok {
-				for _, f := range st.Fields.List {
-					for _, n := range f.Names {
-						if t.usedF[name][n.Name] {
-							_ = t.leanType(f.Type)
-						}
+				for fn := range t.usedF[name] {
+					if ft := t.promotedFieldType(st, fn, 0); ft != nil {
+						_ = t.leanType(ft)
 					}
 				}
 			}
@@ -1344,6 +1399,37 @@ func translate(repo string, p *pkgFiles, outPath string) {
 		fmt.Fprintln(os.Stderr, err)
 		os.Exit(1)
 	}
+}
+
+// promotedFieldType: the type expression of a field reached through embedded (anonymous) struct fields
+func (t *trans) promotedFieldType(st *ast.StructType, field string, depth int) ast.Expr {
+	if depth > 4 {
+		return nil
+	}
+	for _, f := range st.Fields.List {
+		for _, n := range f.Names {
+			if n.Name == field {
+				return f.Type
+			}
+		}
+	}
+	for _, f := range st.Fields.List {
+		if len(f.Names) != 0 {
+			continue
+		}
+		ty := f.Type
+		if se, ok := ty.(*ast.StarExpr); ok {
+			ty = se.X
+		}
+		if id, ok := ty.(*ast.Ident); ok {
+			if inner, ok := t.structs[id.Name]; ok {
+				if r := t.promotedFieldType(inner, field, depth+1); r != nil {
+					return r
+				}
+			}
+		}
+	}
+	return nil
 }
 
 func recvName(fd *ast.FuncDecl) string {
